@@ -28,6 +28,7 @@ type Ctx struct {
 	ReplayDir string
 	Rng       *rand.Rand
 	Replay    string // replay file (optional)
+	OutPath   string // result file
 	Start     time.Time
 
 	Known []KnownFinding
@@ -346,3 +347,50 @@ func Protect(f func()) (panicked any) {
 	f()
 	return nil
 }
+
+// WithTimeout runs f in a goroutine; false = f did not finish within d (the goroutine keeps spinning:
+// the caller should Report and then call FlushAndExit).
+func WithTimeout(d time.Duration, f func()) bool {
+	done := make(chan struct{})
+	go func() {
+		defer close(done)
+		f()
+	}()
+	select {
+	case <-done:
+		return true
+	case <-time.After(d):
+		return false
+	}
+}
+
+// FlushAndExit prints the report lines, writes the result file and exits (used after a hang is detected).
+func (c *Ctx) FlushAndExit() {
+	for _, l := range c.Res.KnownHits {
+		fmt.Println(l)
+	}
+	for _, l := range c.Res.Violations {
+		fmt.Println(l)
+	}
+	if c.OutPath != "" {
+		_ = c.WriteResult(c.OutPath)
+	}
+	if len(c.Res.Violations) > 0 {
+		os.Exit(1)
+	}
+	os.Exit(0)
+}
+
+// IsKnown reports whether class is a recorded finding of this property (lets oracles skip building
+// large replay inputs for the 2nd..nth hit of a known class; Report must still be called).
+func (c *Ctx) IsKnown(class string) bool {
+	for _, k := range c.Known {
+		if k.Property == c.Prop && k.Class == class && k.Status == "finding" {
+			return true
+		}
+	}
+	return false
+}
+
+// KnownSeen returns how many times a known class has been reported so far.
+func (c *Ctx) KnownSeen(class string) int { return c.Res.knownSeen[class] }
